@@ -505,5 +505,5 @@ func fileCase(fd protoreflect.FileDescriptor, txt1 string, fd2 protoreflect.File
 	if txt2 != txt1 {
 		return "", 0, "second print differs (reported by the oracle)", nil
 	}
-	return fmt.Sprintf("CFile %s %s %s %s", impTerm(fd), d1, t1, d2), n1, "", nil
+	return fmt.Sprintf("CFile %s %s\n %s\n %s %s", impTerm(fd), d1, vh.BytesTerm(txt1), t1, d2), n1 + len(txt1)/4, "", nil
 }
